@@ -14,6 +14,11 @@ class Ptr:
     __slots__ = ("r", "o")
     def __init__(s, r, o): s.r, s.o = r, o
     def __repr__(s): return "&%s+%d" % (s.r, s.o)
+class SymPtr:
+    """pointer r + o + idx*stride with a symbolic element index idx in [lo, hi] (layer G: bucket arrays indexed by a digit)"""
+    __slots__ = ("r", "o", "idx", "stride", "lo", "hi")
+    def __init__(s, r, o, idx, stride, lo, hi): s.r, s.o, s.idx, s.stride, s.lo, s.hi = r, o, idx, stride, lo, hi
+    def __repr__(s): return "&%s+%d+[%r in %d..%d]*%d" % (s.r, s.o, s.idx, s.lo, s.hi, s.stride)
 class FnPtr:
     def __init__(s, name): s.name = name
 
@@ -141,6 +146,8 @@ class LSym:
             for i in idx[1:]:
                 o, cur = self.mod.field_offset(cur, i); off += o
             return Ptr(base.r, base.o + off)
+        m = re.match(r'inttoptr\s*\(i64\s+(\d+)\s+to\s+ptr\)$', txt)
+        if m: return Ptr("null", int(m.group(1)))       # dangling pointer of an empty Vec / ZST
         raise Unsupported("constant pointer expression " + txt[:80])
 
     def store(self, p, v, size):
@@ -704,6 +711,7 @@ class LSym:
         raise Unsupported("memcmp of symbolic bytes")
     def on_dealloc(self, p, args): pass
     # hooks of the taint engine (llsym/tsym.py): the base engine has no secret values
+    def sym_gep(self, base, idx, stride): return None
     def is_secret(self, v): return False
     def leak(self, kind, what, fn=None, lab=None, ins=None): raise Unsupported(what)
 
@@ -1036,6 +1044,17 @@ def _i_store(self, env, ins):
 def _i_gep(self, env, ins):
     _, dst, ty, p, idx = ins
     base = self.opval(env, p, "ptr")
+    if isinstance(base, SymPtr):
+        off = 0; cur = ty
+        for n, (it, o) in enumerate(idx):
+            iv = self.P(self.opval(env, o, it))
+            if not iv.is_const(): raise Unsupported("second symbolic index on a symbolic pointer")
+            i = iv.cval(); w = int_width(it)
+            if i >> (w - 1): i -= 1 << w
+            if n == 0: off += i * self.mod.sizeof(ty)
+            else:
+                o2, cur = self.mod.field_offset(cur, i); off += o2
+        env[dst] = SymPtr(base.r, base.o + off, base.idx, base.stride, base.lo, base.hi); return
     if not isinstance(base, Ptr): raise Unsupported("gep on non-pointer")
     off = 0; cur = ty
     for n, (it, o) in enumerate(idx):
@@ -1043,6 +1062,8 @@ def _i_gep(self, env, ins):
         if self.is_secret(ov_): self.leak("address", "address computed from a secret-dependent index (getelementptr)", None, None, ins)
         iv = self.P(ov_)
         if not iv.is_const():
+            sp = self.sym_gep(base, iv, self.mod.sizeof(ty)) if (n == 0 and len(idx) == 1) else None
+            if sp is not None: env[dst] = sp; return
             raise Unsupported("symbolic address (gep index) ")
         i = iv.cval()
         w = int_width(it)
